@@ -2,7 +2,9 @@
 C11 — Merkle proof checks are complete and sound.
 
 Model: Model/Proof.lean (`checkProof`, `checkBlockHeaderProof(State)`, `checkAccountProof`, `checkShardProof`
-over constructed cell objects `PCell`).  Pruning: Proofs/Prune.lean (`PruneRel`).  Helper lemmas: Proofs/Merkle.lean.
+over constructed cell objects `PCell`) and Model/Locate.lean (`locateAccount`: the TL-B walk of `check_account_proof` to the
+account cell, concrete; `lookupShardAccount`: the lookup-only reading of block.tlb / hashmap.tlb used in the statements).
+Pruning: Proofs/Prune.lean (`PruneRel`).  Helper lemmas: Proofs/Merkle.lean, Proofs/Locate.lean, Proofs/LocateBind.lean.
 `H` is SHA-256 as a parameter; completeness needs no property of `H` beyond 32-byte output (so that the hash fits
 the proof cell's 256-bit field); soundness takes a LOCAL no-collision hypothesis on the representations at hand.
 -/
